@@ -317,7 +317,7 @@ def rule_r5(ctx: Ctx) -> None:
     ctx.count(len(mods))
     from . import approx_keys
 
-    ks, scanned = approx_keys.sites(ctx, ["_serdes", "_serializable"])
+    ks, scanned = approx_keys.sites(ctx, ["_serdes"])
     ctx.count(scanned)
     found.extend("%s: %s (%s)" % (k["function"], k["construct"], k["kind"]) for k in ks)
     found = sorted(set(found))
